@@ -1,16 +1,30 @@
 package main
 
-// Translator table for C06: the dry-run spellings.  Reads the bodies of
-// (*Install).isDryRun (pkg/action/install.go) and (*Upgrade).isDryRun (pkg/action/upgrade.go)
-// with go/ast: the condition of the `if` that returns true must be a disjunction whose
-// disjuncts are either the selector <recv>.DryRun or a comparison <recv>.DryRunOption == "lit".
-// Anything else makes the table unreadable (and the obligation in Props/C06.v fail).
-// Also records in which functions of rollback.go / uninstall.go the DryRun field is read.
+// Translator table for C06: the dry-run spellings (coq/Gen/DryRunSpellings.v).
+//
+// Install.isDryRun (pkg/action/install.go) and Upgrade.isDryRun (pkg/action/upgrade.go) are
+// EVALUATED, not pattern-matched: the body is interpreted over the two inputs it may read - the
+// boolean field DryRun and the string field DryRunOption - for DryRun in {true, false} and
+// DryRunOption in {every string literal the body compares it with} + {a string it does not
+// mention}.  The body may use if / else, early returns, switch with or without a tag (multi-value
+// cases, default), ||, &&, !, ==, != against string literals (either operand order), parentheses,
+// locals holding the option, the boolean or a boolean expression, and a final `return <expr>`.
+// Since such a body can depend on the option only through those comparisons, the finite
+// evaluation decides it for EVERY option string:
+//   <x>_dry_uses_bool  = with DryRun set the function returns true for every option string
+//   <x>_dry_spellings  = the option strings (sorted, without duplicates) for which it returns
+//                        true with DryRun clear; a string the body does not mention gives false
+// Anything else (a call such as strings.ToLower / strings.EqualFold, another field, a loop, a
+// body that is true for unmentioned strings ...) is NOT guessed: the table is still well-formed,
+// the entry gets uses_bool = false, no spellings, and a line in dry_table_problems, whose
+// obligation (Props/C06.v: C06_spellings_table_readable) names the function and the construct.
+// Also recorded: in which methods of rollback.go / uninstall.go the single boolean DryRun is read.
 
 import (
 	"fmt"
 	"go/ast"
 	"go/token"
+	"sort"
 	"strings"
 
 	"verif/harness/internal/hx"
@@ -36,19 +50,6 @@ func c06RecvName(fd *ast.FuncDecl) (recvVar, recvType string) {
 	return
 }
 
-// c06Disjuncts flattens a || b || c
-func c06Disjuncts(e ast.Expr) []ast.Expr {
-	switch v := e.(type) {
-	case *ast.ParenExpr:
-		return c06Disjuncts(v.X)
-	case *ast.BinaryExpr:
-		if v.Op == token.LOR {
-			return append(c06Disjuncts(v.X), c06Disjuncts(v.Y)...)
-		}
-	}
-	return []ast.Expr{e}
-}
-
 func c06IsSel(e ast.Expr, recv, field string) bool {
 	s, ok := e.(*ast.SelectorExpr)
 	if !ok || s.Sel.Name != field {
@@ -58,11 +59,263 @@ func c06IsSel(e ast.Expr, recv, field string) bool {
 	return ok && id.Name == recv
 }
 
-// returns (uses the DryRun boolean, option literals in source order)
-func c06ReadIsDryRun(repo, rel, typ string) (bool, []string, error) {
+// ---- a small interpreter for the body of isDryRun ----
+
+type c06Val struct {
+	isBool bool
+	b      bool
+	s      string
+}
+
+type c06Eval struct {
+	recv   string
+	dryRun bool
+	opt    string
+	env    map[string]c06Val
+	err    error
+}
+
+func (ev *c06Eval) fail(format string, a ...interface{}) {
+	if ev.err == nil {
+		ev.err = fmt.Errorf(format, a...)
+	}
+}
+
+func c06Show(e ast.Node) string {
+	switch v := e.(type) {
+	case *ast.CallExpr:
+		return "the call " + flowCallName(v.Fun) + "(...)"
+	case *ast.SelectorExpr:
+		if id, ok := v.X.(*ast.Ident); ok {
+			return id.Name + "." + v.Sel.Name
+		}
+	case *ast.Ident:
+		return v.Name
+	}
+	return strings.TrimPrefix(fmt.Sprintf("%T", e), "*ast.")
+}
+
+func (ev *c06Eval) expr(e ast.Expr) c06Val {
+	switch v := e.(type) {
+	case *ast.ParenExpr:
+		return ev.expr(v.X)
+	case *ast.BasicLit:
+		if s, ok := strLit(v); ok {
+			return c06Val{s: s}
+		}
+	case *ast.Ident:
+		switch v.Name {
+		case "true":
+			return c06Val{isBool: true, b: true}
+		case "false":
+			return c06Val{isBool: true, b: false}
+		}
+		if x, ok := ev.env[v.Name]; ok {
+			return x
+		}
+	case *ast.SelectorExpr:
+		if c06IsSel(v, ev.recv, "DryRun") {
+			return c06Val{isBool: true, b: ev.dryRun}
+		}
+		if c06IsSel(v, ev.recv, "DryRunOption") {
+			return c06Val{s: ev.opt}
+		}
+	case *ast.UnaryExpr:
+		if v.Op == token.NOT {
+			x := ev.expr(v.X)
+			if x.isBool {
+				return c06Val{isBool: true, b: !x.b}
+			}
+		}
+	case *ast.BinaryExpr:
+		switch v.Op {
+		case token.LOR, token.LAND:
+			x := ev.expr(v.X)
+			if !x.isBool {
+				break
+			}
+			// short-circuit, as Go does (the operands have no effects here, but an operand the
+			// interpreter does not understand must not matter when Go would not evaluate it)
+			if (v.Op == token.LOR && x.b) || (v.Op == token.LAND && !x.b) {
+				return x
+			}
+			y := ev.expr(v.Y)
+			if y.isBool {
+				return y
+			}
+		case token.EQL, token.NEQ:
+			x, y := ev.expr(v.X), ev.expr(v.Y)
+			if ev.err != nil {
+				return c06Val{isBool: true}
+			}
+			if x.isBool != y.isBool {
+				break
+			}
+			eq := x.b == y.b
+			if !x.isBool {
+				eq = x.s == y.s
+			}
+			return c06Val{isBool: true, b: eq == (v.Op == token.EQL)}
+		}
+	}
+	ev.fail("%s is not something the translator can evaluate (only DryRun, DryRunOption, string literals, locals, ==, !=, !, &&, ||)", c06Show(e))
+	return c06Val{isBool: true}
+}
+
+// block returns (returned?, value)
+func (ev *c06Eval) block(l []ast.Stmt) (bool, bool) {
+	for _, st := range l {
+		if done, v := ev.stmt(st); done || ev.err != nil {
+			return done, v
+		}
+	}
+	return false, false
+}
+
+func (ev *c06Eval) stmt(st ast.Stmt) (bool, bool) {
+	switch v := st.(type) {
+	case *ast.EmptyStmt:
+		return false, false
+	case *ast.ReturnStmt:
+		if len(v.Results) != 1 {
+			ev.fail("a return with %d results", len(v.Results))
+			return true, false
+		}
+		x := ev.expr(v.Results[0])
+		if !x.isBool {
+			ev.fail("a return of a non-boolean")
+		}
+		return true, x.b
+	case *ast.BlockStmt:
+		return ev.block(v.List)
+	case *ast.AssignStmt:
+		if len(v.Lhs) != len(v.Rhs) {
+			ev.fail("an assignment with %d left and %d right sides", len(v.Lhs), len(v.Rhs))
+			return false, false
+		}
+		for i := range v.Lhs {
+			id, ok := v.Lhs[i].(*ast.Ident)
+			if !ok {
+				ev.fail("an assignment to %s", c06Show(v.Lhs[i]))
+				return false, false
+			}
+			ev.env[id.Name] = ev.expr(v.Rhs[i])
+		}
+		return false, false
+	case *ast.DeclStmt:
+		gd, ok := v.Decl.(*ast.GenDecl)
+		if !ok || gd.Tok != token.VAR {
+			break
+		}
+		for _, sp := range gd.Specs {
+			vs := sp.(*ast.ValueSpec)
+			for i, n := range vs.Names {
+				switch {
+				case i < len(vs.Values):
+					ev.env[n.Name] = ev.expr(vs.Values[i])
+				case flowTypeName(vs.Type) == "bool":
+					ev.env[n.Name] = c06Val{isBool: true}
+				case flowTypeName(vs.Type) == "string":
+					ev.env[n.Name] = c06Val{}
+				default:
+					ev.fail("a variable of type %s", flowTypeName(vs.Type))
+				}
+			}
+		}
+		return false, false
+	case *ast.IfStmt:
+		if v.Init != nil {
+			if done, x := ev.stmt(v.Init); done || ev.err != nil {
+				return done, x
+			}
+		}
+		c := ev.expr(v.Cond)
+		if ev.err != nil {
+			return false, false
+		}
+		if c.b {
+			return ev.block(v.Body.List)
+		}
+		if v.Else != nil {
+			return ev.stmt(v.Else)
+		}
+		return false, false
+	case *ast.SwitchStmt:
+		if v.Init != nil {
+			if done, x := ev.stmt(v.Init); done || ev.err != nil {
+				return done, x
+			}
+		}
+		tag := c06Val{isBool: true, b: true}
+		if v.Tag != nil {
+			tag = ev.expr(v.Tag)
+		}
+		var deflt *ast.CaseClause
+		for _, cl := range v.Body.List {
+			cc := cl.(*ast.CaseClause)
+			if cc.List == nil {
+				deflt = cc
+				continue
+			}
+			for _, ce := range cc.List {
+				x := ev.expr(ce)
+				if ev.err != nil {
+					return false, false
+				}
+				if x.isBool == tag.isBool && ((x.isBool && x.b == tag.b) || (!x.isBool && x.s == tag.s)) {
+					return ev.clause(cc)
+				}
+			}
+		}
+		if deflt != nil {
+			return ev.clause(deflt)
+		}
+		return false, false
+	}
+	ev.fail("a %s statement", strings.TrimPrefix(fmt.Sprintf("%T", st), "*ast."))
+	return false, false
+}
+
+func (ev *c06Eval) clause(cc *ast.CaseClause) (bool, bool) {
+	for _, st := range cc.Body {
+		if b, ok := st.(*ast.BranchStmt); ok {
+			if b.Tok == token.BREAK && b.Label == nil {
+				return false, false
+			}
+			ev.fail("a %s in a switch", b.Tok)
+			return false, false
+		}
+		if done, v := ev.stmt(st); done || ev.err != nil {
+			return done, v
+		}
+	}
+	return false, false
+}
+
+// string literals anywhere in the body
+func c06Literals(body *ast.BlockStmt) []string {
+	seen := map[string]bool{}
+	ast.Inspect(body, func(n ast.Node) bool {
+		if bl, ok := n.(*ast.BasicLit); ok {
+			if s, ok := strLit(bl); ok {
+				seen[s] = true
+			}
+		}
+		return true
+	})
+	var out []string
+	for s := range seen {
+		out = append(out, s)
+	}
+	sort.Strings(out)
+	return out
+}
+
+// c06ReadIsDryRun: (with DryRun set: true for every option, the spellings with DryRun clear, problem)
+func c06ReadIsDryRun(repo, rel, typ string) (bool, []string, string) {
 	f, _, err := parseFile(repo, rel)
 	if err != nil {
-		return false, nil, err
+		return false, nil, fmt.Sprintf("%s: %v", rel, err)
 	}
 	for _, d := range f.Decls {
 		fd, ok := d.(*ast.FuncDecl)
@@ -73,48 +326,45 @@ func c06ReadIsDryRun(repo, rel, typ string) (bool, []string, error) {
 		if rt != typ {
 			continue
 		}
-		// shape: if <cond> { return true }; return false      or      return <cond>
-		var cond ast.Expr
-		switch len(fd.Body.List) {
-		case 1:
-			if rs, ok := fd.Body.List[0].(*ast.ReturnStmt); ok && len(rs.Results) == 1 {
-				cond = rs.Results[0]
+		where := rel + ": " + typ + ".isDryRun: "
+		lits := c06Literals(fd.Body)
+		fresh := "\x00not-mentioned"
+		run := func(dry bool, opt string) (bool, error) {
+			ev := &c06Eval{recv: rv, dryRun: dry, opt: opt, env: map[string]c06Val{}}
+			done, v := ev.block(fd.Body.List)
+			if ev.err != nil {
+				return false, ev.err
 			}
-		case 2:
-			is, ok1 := fd.Body.List[0].(*ast.IfStmt)
-			rs, ok2 := fd.Body.List[1].(*ast.ReturnStmt)
-			if ok1 && ok2 && is.Init == nil && is.Else == nil && len(is.Body.List) == 1 && len(rs.Results) == 1 {
-				r1, ok3 := is.Body.List[0].(*ast.ReturnStmt)
-				id2, ok4 := rs.Results[0].(*ast.Ident)
-				if ok3 && ok4 && len(r1.Results) == 1 && id2.Name == "false" {
-					if id1, ok := r1.Results[0].(*ast.Ident); ok && id1.Name == "true" {
-						cond = is.Cond
-					}
+			if !done {
+				return false, fmt.Errorf("the body can end without a return")
+			}
+			return v, nil
+		}
+		usesBool := true
+		var spell []string
+		for _, opt := range append(append([]string{}, lits...), fresh) {
+			vt, err := run(true, opt)
+			if err != nil {
+				return false, nil, where + err.Error()
+			}
+			if !vt {
+				usesBool = false
+			}
+			vf, err := run(false, opt)
+			if err != nil {
+				return false, nil, where + err.Error()
+			}
+			if vf {
+				if opt == fresh {
+					return false, nil, where + "it returns true for option strings it does not mention: the dry spellings are not a finite list"
 				}
+				spell = append(spell, opt)
 			}
 		}
-		if cond == nil {
-			return false, nil, fmt.Errorf("%s: (*%s).isDryRun has an unexpected shape", rel, typ)
-		}
-		usesBool := false
-		var lits []string
-		for _, dj := range c06Disjuncts(cond) {
-			if c06IsSel(dj, rv, "DryRun") {
-				usesBool = true
-				continue
-			}
-			be, ok := dj.(*ast.BinaryExpr)
-			if ok && be.Op == token.EQL && c06IsSel(be.X, rv, "DryRunOption") {
-				if s, ok := strLit(be.Y); ok {
-					lits = append(lits, s)
-					continue
-				}
-			}
-			return false, nil, fmt.Errorf("%s: (*%s).isDryRun has a disjunct that is neither %s.DryRun nor %s.DryRunOption == \"...\"", rel, typ, rv, rv)
-		}
-		return usesBool, lits, nil
+		sort.Strings(spell)
+		return usesBool, spell, ""
 	}
-	return false, nil, fmt.Errorf("%s: (*%s).isDryRun not found", rel, typ)
+	return false, nil, rel + ": " + typ + ".isDryRun not found"
 }
 
 // functions of a file in which <recv>.DryRun is read (methods of typ)
@@ -148,28 +398,33 @@ func c06DryRunReaders(repo, rel, typ string) ([]string, error) {
 }
 
 func genDryRunSpellings(repo string) (string, error) {
-	ib, il, err := c06ReadIsDryRun(repo, "pkg/action/install.go", "Install")
-	if err != nil {
-		return "", err
+	var problems []string
+	ib, il, p := c06ReadIsDryRun(repo, "pkg/action/install.go", "Install")
+	if p != "" {
+		problems = append(problems, p)
 	}
-	ub, ul, err := c06ReadIsDryRun(repo, "pkg/action/upgrade.go", "Upgrade")
-	if err != nil {
-		return "", err
+	ub, ul, p := c06ReadIsDryRun(repo, "pkg/action/upgrade.go", "Upgrade")
+	if p != "" {
+		problems = append(problems, p)
 	}
 	rb, err := c06DryRunReaders(repo, "pkg/action/rollback.go", "Rollback")
 	if err != nil {
-		return "", err
+		problems = append(problems, err.Error())
 	}
 	un, err := c06DryRunReaders(repo, "pkg/action/uninstall.go", "Uninstall")
 	if err != nil {
-		return "", err
+		problems = append(problems, err.Error())
 	}
 	var b strings.Builder
-	b.WriteString("(* pkg/action/install.go Install.isDryRun, pkg/action/upgrade.go Upgrade.isDryRun *)\n")
+	b.WriteString("(* pkg/action/install.go Install.isDryRun, pkg/action/upgrade.go Upgrade.isDryRun, evaluated:\n")
+	b.WriteString("   uses_bool: with DryRun set the function is true for every option string;\n")
+	b.WriteString("   spellings: the option strings (sorted) for which it is true with DryRun clear *)\n")
 	fmt.Fprintf(&b, "Definition install_dry_uses_bool : bool := %s.\n", hx.CoqBool(ib))
 	fmt.Fprintf(&b, "Definition install_dry_spellings : list string := %s.\n", hx.CoqStrList(il))
 	fmt.Fprintf(&b, "Definition upgrade_dry_uses_bool : bool := %s.\n", hx.CoqBool(ub))
 	fmt.Fprintf(&b, "Definition upgrade_dry_spellings : list string := %s.\n", hx.CoqStrList(ul))
+	b.WriteString("(* what the translator could not evaluate (must be empty) *)\n")
+	fmt.Fprintf(&b, "Definition dry_table_problems : list string := %s.\n", hx.CoqStrList(problems))
 	b.WriteString("(* methods that read the single boolean DryRun: pkg/action/rollback.go, pkg/action/uninstall.go *)\n")
 	fmt.Fprintf(&b, "Definition rollback_dry_readers : list string := %s.\n", hx.CoqStrList(rb))
 	fmt.Fprintf(&b, "Definition uninstall_dry_readers : list string := %s.\n", hx.CoqStrList(un))
